@@ -55,8 +55,12 @@ def fingerprint(x, depth=0, index=False):
     if depth > 6:
         return 'deep'
     if isinstance(x, RDMs):
+        try:        # the square form as the object reports it now (what a later matrix consumer will see)
+            sq = _val(np.asarray(x.get_matrices()))
+        except Exception as exc:
+            sq = ('raises', type(exc).__name__)
         return ('RDMs', _val(x.dissimilarities), _desc(x.descriptors, False), _desc(x.rdm_descriptors, not index),
-                _desc(x.pattern_descriptors, not index), x.dissimilarity_measure, x.n_rdm, x.n_cond)
+                _desc(x.pattern_descriptors, not index), x.dissimilarity_measure, x.n_rdm, x.n_cond, sq)
     if isinstance(x, DatasetBase):
         t = _desc(getattr(x, 'time_descriptors', {}), False)
         return (type(x).__name__, _val(x.measurements), _desc(x.descriptors, False), _desc(x.obs_descriptors, False),
